@@ -358,14 +358,16 @@ def run_compiler_check(ctx, res, prop):
             if fail and j["wrong"] is None and j["dirty"] is None:
                 stats["y1_only"] += 1
         events = set(rep.get("events", [])) if rep and "error" not in rep else set()
-        # the instance lies in the class of the Lean theorem C02_fragment_partial (single tree-like definition)
-        # and the model reproduces the real gate list: the theorem applies, a wrong output can only be new
+        # the instance lies in the class of one of the Lean fragment theorems (C02_fragment_partial: single tree-like
+        # definition; C02_fragment_consts: + constants; C02_fragment_multi / C02_fragment_named: straight-line
+        # definition lists, uncompute off – the driver's `in_fragment` is their disjunction for this run)
+        # and the model reproduces the real gate list: a theorem applies, a wrong output can only be new
         in_frag = bool(prop == "C02" and rep is not None and not mismatch and rep.get("in_fragment"))
         frag_thm = "C02_fragment_partial"
         if in_frag:
             stats["in_fragment"] += 1
             if not rep.get("valid", True):
-                res.disagree(case, "model instance inside the class of C02_fragment_partial rejected by the Lean validator "
+                res.disagree(case, "model instance inside the class of a C02 fragment theorem rejected by the Lean validator "
                              "(contradicts the theorem: model and proof out of sync)", code=None, model=dict(valid=False))
         # C03 / C06: the classes of C03_fragment_partial (inCleanFragment) / C06_fragment_partial (inXorFragment),
         # reported by the driver for uncompute=True runs; same rule: inside the class a failure is never a known finding
@@ -440,9 +442,11 @@ def run_compiler_check(ctx, res, prop):
                 "independent simulator. distinct by (program, optimizer, uncompute); non-trivial = at least one compound "
                 "expression and >= 2 input bits")
     if prop == "C02":
-        res.notes.append(f"{stats['in_fragment']} compiled instances lie in the decidable class of the Lean theorem "
-                         "C02_fragment_partial (one definition, tree-like expression over the arguments) with the model "
-                         "reproducing the real gate list: there the theorem applies and a failure is never attributed to a known finding")
+        res.notes.append(f"{stats['in_fragment']} compiled instances lie in the decidable class of a Lean fragment theorem "
+                         "(C02_fragment_partial: one tree-like definition; C02_fragment_consts: + constants; "
+                         "C02_fragment_multi / C02_fragment_named: straight-line definition lists with re-used freed ancillas, "
+                         "uncompute off) with the model reproducing the real gate list: there a theorem applies and a failure "
+                         "is never attributed to a known finding")
     if prop in ("C03", "C06"):
         thm, cls = (("C03_fragment_partial", "inCleanFragment") if prop == "C03" else ("C06_fragment_partial", "inXorFragment"))
         res.notes.append(f"{stats['in_fragment']} compiled instances lie in the decidable class of the Lean theorem {thm} "
